@@ -74,6 +74,48 @@ def trace_random_lens(args):
     return {"seed": seed, "meta": meta, "events": events, "dict": None}
 
 
+def trace_tir_lens(args):
+    """Directed family: a slab of dense glass whose exit face is tilted so far that part of the fan
+    is beyond the critical angle there (no refracted direction: the ray must be reported as
+    non-finite from that surface on), and a fast plano-convex lens at full aperture."""
+    seed, nrays = args
+    rnd = random.Random(seed)
+    from optiland.optic import Optic
+    from optiland.materials import IdealMaterial
+    o = Optic()
+    nn = rnd.choice([1.5, 1.8, 2.4])
+    o.add_surface(index=0, thickness=math.inf)
+    if seed % 2 == 0:
+        crit = math.asin(1.0 / nn)
+        o.add_surface(index=1, thickness=5.0, material=IdealMaterial(n=nn, k=0), is_stop=True)
+        o.add_surface(index=2, thickness=20.0, rx=rnd.choice([-1, 1]) * rnd.uniform(0.8, 1.1) * crit)
+        o.add_surface(index=3)
+        epd, mf = 2.0, 25.0
+        kinds = ["standard", "standard"]
+    else:
+        R = 10.0
+        o.add_surface(index=1, thickness=R * 0.95, material=IdealMaterial(n=nn, k=0), is_stop=True)
+        o.add_surface(index=2, radius=-R, thickness=15.0)
+        o.add_surface(index=3)
+        epd, mf = 2.0 * R * rnd.uniform(0.9, 0.99), 3.0
+        kinds = ["standard", "standard"]
+    o.set_aperture("EPD", epd)
+    o.set_field_type("angle")
+    o.add_field(y=0.0)
+    o.add_field(y=mf)
+    o.add_wavelength(0.55, is_primary=True)
+    meta = {"nsurf": 2, "finite_object": False, "stop": 1, "kinds": kinds, "mirror": False, "tilted": seed % 2 == 0,
+            "epd": epd, "field_type": "angle", "max_field": mf, "family": "total_internal_reflection"}
+    events = []
+    try:
+        Hx, Hy, Px, Py = _rays(rnd, nrays, steep=True)
+        G.quiet(o.trace_generic, Hx, Hy, Px, Py, 0.55)
+        events += RR.record_events(o, 0.55, ray_base=0)
+    except Exception as ex:
+        return {"error": "trace: %s: %s" % (type(ex).__name__, ex), "seed": seed, "events": [], "meta": meta}
+    return {"seed": seed, "meta": meta, "events": events, "dict": None}
+
+
 def trace_sample(args):
     name, nrays, seed = args
     rnd = random.Random(seed)
@@ -147,6 +189,7 @@ def main(ctx):
     results = []
     with ProcessPoolExecutor(max_workers=16) as ex:
         results += list(ex.map(trace_random_lens, tasks, chunksize=4))
+        results += list(ex.map(trace_tir_lens, [(ctx.seed * 31 + 900000 + i, 8) for i in range(6 if quick else 40)]))
         sres = list(ex.map(trace_sample, stasks))
     events = []
     owner = {}
